@@ -194,6 +194,8 @@ pub fn generate_c02(thorough: bool, seed: u64, _part: (usize, usize), em: &mut E
             crate::props::conn::BUILDER_HIST.store(0, std::sync::atomic::Ordering::Relaxed);
         } }
     } } } }
+    // plain RDP security selected although TLS / NLA was asked for, by a server that then speaks in the clear
+    for nla in 0..2 { crate::props::conn::tlsgate(em, false, nla == 1, false, 0x100); }
     // NLA selected and TLS established, but a CredSSP reply is not a TSRequest: the connection fails, MCS never starts
     for which in &[1u8, 2] { for junk in &["00", "3003020100", "ffffffff", ""] { crate::props::conn::nlagate(em, *which, junk); } }
     // absent / truncated / extended / random confirms
